@@ -109,6 +109,8 @@ Proof.
     split.
     + apply ssorted_snoc; [exact S1|]. intros y Hy. cbn [idle_at since]. apply S2, Hy.
     + intros y Hy. apply in_app_or in Hy. destruct Hy as [Hy|[<-|[]]]; [apply Hk, Hy|cbn [idle_at since]; lia].
+  - (* drop pool *)
+    split; [exact I|intros y []].
   - (* resize *)
     split; [apply resize_locked_sorted, S1|]. intros y Hy. apply Hk. eapply in_vec_resize. exact Hy.
   - (* retain *)
@@ -120,8 +122,6 @@ Proof.
   - (* close *)
     split; [apply resize_locked_sorted; sp; exact S1|]. intros y Hy. apply Hk.
     apply in_vec_resize in Hy. sp. exact Hy.
-  - (* drop pool *)
-    split; [exact I|intros y []].
 Qed.
 
 Lemma SI_run c tr : forall s s', SI s -> run c s tr = Some s' -> SI s'.
